@@ -721,17 +721,51 @@ func silentBindingRule(r *Run, rule string) {
 			r.Lost(rule, "evaluator for *ast."+n)
 			continue
 		}
-		info := f.Pkg.TypesInfo
-		ok, rets := true, 0
-		for _, ret := range returnsIn(f.Decl.Body) {
-			if len(ret.Results) != 2 {
-				continue
+		if sig := f.Obj.Type().(*types.Signature); sig.Results().Len() == 1 && isErrorType(sig.Results().At(0).Type()) {
+			r.Ok(rule, f.Name(), "yields no value", w.Pos(f.Decl.Pos()), "the evaluator's only result is its error")
+			continue
+		}
+		ok, rets, undecided := true, 0, ""
+		// the evaluator's own returns, and those of the helpers it hands its result over to (`return c.bind(...)`)
+		var judge func(g *FuncInfo, depth int)
+		seenFn := map[*types.Func]bool{}
+		judge = func(g *FuncInfo, depth int) {
+			if seenFn[g.Obj] {
+				return
 			}
-			rets++
-			if isNilIdent(info, ret.Results[1]) && !isNilIdent(info, ret.Results[0]) {
-				ok = false
-				r.Bad(rule, f.Name(), "success return "+short(w.Fset, ret), w.Pos(ret.Pos()), "a let / an assignment must evaluate to nothing (nil): the value would be written (top level) or taken for the value of the enclosing block")
+			seenFn[g.Obj] = true
+			info := g.Pkg.TypesInfo
+			for _, ret := range returnsIn(g.Decl.Body) {
+				switch len(ret.Results) {
+				case 2:
+					rets++
+					if isNilIdent(info, ret.Results[1]) && !isNilIdent(info, ret.Results[0]) {
+						ok = false
+						r.Bad(rule, g.Name(), "success return "+short(w.Fset, ret), w.Pos(ret.Pos()), "a let / an assignment must evaluate to nothing (nil): the value would be written (top level) or taken for the value of the enclosing block")
+					}
+				case 1:
+					if tv, okT := info.Types[ret.Results[0]]; okT {
+						if _, isTuple := tv.Type.(*types.Tuple); !isTuple {
+							continue // a return of a function literal inside the evaluator
+						}
+					}
+					c, isCall := unparen(ret.Results[0]).(*ast.CallExpr)
+					var h *FuncInfo
+					if isCall {
+						h = w.FuncOf(calleeOf(info, c))
+					}
+					if h == nil || h.Decl.Body == nil || depth >= 3 {
+						undecided = "return " + short(w.Fset, ret.Results[0]) + " in " + g.Name()
+						continue
+					}
+					judge(h, depth+1)
+				}
 			}
+		}
+		judge(f, 0)
+		if undecided != "" {
+			r.Lost(rule, "what the evaluator for *ast."+n+" returns ("+undecided+")")
+			continue
 		}
 		if rets == 0 {
 			r.Lost(rule, "returns of the evaluator for *ast."+n)
